@@ -209,6 +209,14 @@ func (or *ObjectRegistry) applyConfig(config map[string]string) {
 			continue
 		}
 
+		if prevEntity != nil && prevEntity.Spec().Kind() != entity.Spec().Kind() {
+			// A change of kind is not an update: an object can't inherit
+			// from an object of another kind (and the watchers interested
+			// in the two kinds may differ). Delete the old one, create the new one.
+			deleted[name] = prevEntity
+			prevEntity = nil
+		}
+
 		if prevEntity != nil {
 			updated[name] = entity
 		} else {
